@@ -249,6 +249,10 @@ def run_path(I: Interp, finfo: FuncInfo, con: Contract):
         if bounded_mode and not st.consistent():
             st.cfg["vacuous_exit"] = True  # (small-scope bounds added while grounding the ensures may legitimately exclude the path)
         goals = [(label, spec_bool(I, e, sf)) for label, e in con.ensures]
+        if bounded_mode and con.bounded and not st.cfg.get("vacuous_exit") and not st.consistent(3000, full=True):
+            # a bounded stand-in: paths excluded by the small-scope bounds are expected, but if EVERY path is contradictory the
+            # stand-in checks nothing (see verify_fuc)
+            st.cfg["_infeasible_full"] = True
         # vacuity guard: the path condition (with the typing assumptions the ensures clauses brought in) must still be
         # satisfiable here, otherwise every postcondition of this path would be discharged from a contradiction
         if not bounded_mode and not st.consistent():
@@ -524,7 +528,7 @@ def discharge(ob: Obligation, st: State, timeout_ms: int, use_cvc5: bool, both: 
                         ob.model = None
         if st.cfg.get("ground") and ob.model is None:
             # bounded mode, still no model: second opinion of the z3 4.8.12 binary, whose scalar choices guide the library solver
-            m5 = smt.cli_guided_model(assertions, min(timeout_ms, 20000))
+            m5 = smt.cli_guided_model(assertions, max(timeout_ms, 45000))
             if m5 is not None:
                 ob.status, ob.backend, ob.detail = "failed", "z3 (model search guided by /usr/bin/z3 4.8.12)", ""
                 try:
@@ -616,6 +620,8 @@ def verify_fuc(key: str, cfg: dict) -> FucResult:
                     prefixes.append(list(st.trace))  # a complete path shorter than the split depth
                 continue
             res.paths += 1
+            if pcfg.get("_infeasible_full"):
+                res.infeasible_paths = getattr(res, "infeasible_paths", 0) + 1
             if res.paths > con.max_paths:
                 raise Refuse(f"more than {con.max_paths} paths in {key}")
             for ob in st.obligations:
@@ -638,6 +644,8 @@ def verify_fuc(key: str, cfg: dict) -> FucResult:
                     res.log.append(l)
             if cfg.get("stop_after_failures") and sum(1 for o in res.obligations if o["status"] == "failed") >= cfg["stop_after_failures"]:
                 break
+        if con.bounded and res.paths and getattr(res, "infeasible_paths", 0) >= res.paths and not res.error:
+            res.error = "every path of the bounded stand-in has a contradictory path condition (vacuous: it checks nothing)"
     except Refuse as e:
         res.error = f"outside subset: {e}"
     except KeyError as e:
